@@ -59,8 +59,17 @@ def rules(chk, db):
         chk.decide(w.get(t) == r.get(t), 'MO', 'nop/base/members.h <%s>' % encrules.short_t(t),
                    'members written %s, read %s' % (w.get(t), r.get(t)), function=t)
     ids = {'T': None, 'G': None, 'E': None, 'C': 'C'}
+    # the CHECKED buffer classes must also accept exactly what fits: a value written into a buffer of exactly its encoded size
+    # round-trips only if no store / transfer that ends at the limit is refused (T/G/E; the unchecked classes have no guards)
+    checked = ('nop::PedanticBufferWriter', 'nop::ConstexprBufferWriter', 'nop::PedanticBufferReader')
+    chk.rule('T', 'Prepare/Ensure(n) of the checked buffer classes succeeds exactly when n <= limit - pos, overflow-safe', minimum=2)
+    chk.rule('G', 'checked buffer classes guard every transfer by exactly need <= limit - pos', minimum=4)
+    chk.rule('E', 'refusal returns the limit error and has no effect', minimum=4)
     for rec in rwrules.BUFFER_CLASSES:
-        rwrules.check_buffer_class(chk, db, rec, ids, guard_required=False)
+        if rec in checked:
+            rwrules.check_buffer_class(chk, db, rec, {'T': 'T', 'G': 'G', 'E': 'E', 'C': 'C'})
+        else:
+            rwrules.check_buffer_class(chk, db, rec, ids, guard_required=False)
     rwrules.check_stream_class(chk, db, 'nop::StreamReader', 'reader', 'ST', 'ST')
     rwrules.check_stream_class(chk, db, 'nop::StreamWriter', 'writer', 'ST', 'ST')
     rwrules.check_fd_class(chk, db, 'nop::FdReader', 'reader', 'FDS')
